@@ -10,6 +10,7 @@ type Feat struct {
 	MaxScopes      int
 	MaxDepth       int
 	MaxOps         int
+	MaxParams      int
 	Export         bool
 	Objects        bool
 	Optional       bool
@@ -335,7 +336,7 @@ func (g *genCtx) genCtor(s int) *Func {
 	}
 	np := 0
 	if maxT > 0 {
-		np = g.r.Intn(4)
+		np = g.r.Intn(g.ft.MaxParams + 1)
 	}
 	f.Params = g.encodeParams(g.pickParamKeys(s, maxT, np, false), RoleCtor)
 	f.Variadic = ft.Variadic && g.r.P(ft.PVariadic)
@@ -694,11 +695,14 @@ func BaseFeat(r *Rng, thorough bool) Feat {
 		PAvail:    0.7 + 0.25*float64(r.Intn(2)),
 		PDup:      0.1,
 		PRetry:    0.3,
+		MaxParams: 3,
 	}
 	if thorough {
 		ft.NT = r.Range(3, 10)
 		ft.MaxScopes = r.Range(1, 8)
 		ft.MaxOps = r.Range(8, 120)
+		ft.MaxDepth = r.Range(1, 5)
+		ft.MaxParams = r.Range(3, 5)
 	}
 	if r.P(0.7) {
 		ft.Names = []string{"n1", "n2"}[:r.Range(1, 2)]
